@@ -102,6 +102,16 @@ impl GarbageCollectionLock {
             .map_err(Error::from)
     }
 
+    /// Returns true if a gc lock file shows up in a listing of the archive directory.
+    pub async fn is_locked_in_listing(archive: &Archive) -> Result<bool> {
+        Ok(archive
+            .transport()
+            .list_dir("")
+            .await?
+            .iter()
+            .any(|entry| entry.name == GC_LOCK))
+    }
+
     /// Check that no new versions have been created in this archive since
     /// the guard was created.
     pub async fn check(&self) -> Result<()> {
